@@ -8,6 +8,7 @@
 // closed file) and the rich entity seed.  The oracle: every call returns or throws a C++ exception; any sanitizer report,
 // assertion, signal or std::terminate kills the process and is attributed to the running program by the dispatcher.
 #include <nix.hpp>
+#include <algorithm>
 #include <nix/util/dataAccess.hpp>
 #include <nix/util/util.hpp>
 #include <climits>
@@ -56,6 +57,11 @@ static void build_world(File &f) {
     DataArray boo = b.createDataArray("boo", "t", DataType::Bool, NDSize({3}));
     DataArray empty = b.createDataArray("empty", "t", DataType::Double, NDSize({0}));
     DataArray empty2 = b.createDataArray("empty2", "t", DataType::Double, NDSize({0, 2}));
+    // calibrated arrays: every typed read goes through the polynomial path
+    DataArray cal = b.createDataArray("cal", "t", DataType::Double, NDSize({4}));
+    cal.setData(std::vector<double>{1, 2, 3, 4}); cal.polynomCoefficients({1.0, 2.0}); cal.expansionOrigin(0.5);
+    DataArray cali = b.createDataArray("cali", "t", DataType::Int32, NDSize({3, 2}));
+    cali.expansionOrigin(1.0);
     DataArray alias = b.createDataArray("alias", "t", DataType::Double, NDSize({3}));
     alias.setData(std::vector<double>{1, 2, 3});
     alias.appendAliasRangeDimension();
@@ -105,7 +111,7 @@ static void build_world(File &f) {
 static std::vector<Call> misuse() {
     std::vector<Call> v;
     auto add = [&](const std::string &n, std::function<void(File &)> fn) { v.push_back(Call{n, fn}); };
-    const std::vector<std::string> arrays = {"d1", "d2", "d3", "d4", "nodims", "str", "strw", "boo", "empty", "empty2", "alias", "pos5x1"};
+    const std::vector<std::string> arrays = {"d1", "d2", "d3", "d4", "nodims", "str", "strw", "boo", "empty", "empty2", "alias", "pos5x1", "cal", "cali"};
 
     // ---- raw data access with wrong ranks, zero counts, offsets at/past the extent, huge values ----
     for (const std::string &an : arrays) {
@@ -132,6 +138,15 @@ static std::vector<Call> misuse() {
         add("getData(vector," + an + ")", [=](File &f) { DataArray a = A(f, an.c_str()); if (a.dataType() == DataType::String) { std::vector<std::string> x; a.getData(x); } else if (a.dataType() == DataType::Bool) { /* vector<bool> unsupported */ } else { std::vector<double> x; a.getData(x); } });
         add("getData(vector,offset only," + an + ")", [=](File &f) { DataArray a = A(f, an.c_str()); if (a.dataType() == DataType::String) { std::vector<std::string> x(2); a.getData(x, NDSize({1})); } else if (a.dataType() != DataType::Bool) { std::vector<double> x(2); a.getData(x, NDSize({1})); } });
         add("getData(as Int8," + an + ")", [=](File &f) { DataArray a = A(f, an.c_str()); NDSize e = a.dataExtent(); std::vector<int8_t> x(e.nelms() + 1); a.getData(DataType::Int8, x.data(), e, NDSize(e.size(), 0)); });
+        // the whole array read as EVERY element type into a buffer of exactly that many elements
+        add("getData(as every type, exact buffer," + an + ")", [=](File &f) { DataArray a = A(f, an.c_str()); NDSize e = a.dataExtent(), z(e.size(), 0); size_t n = (size_t)e.nelms();
+            vf::guarded([&] { std::vector<float> x(n); a.getData(DataType::Float, x.data(), e, z); }); vf::guarded([&] { std::vector<double> x(n); a.getData(DataType::Double, x.data(), e, z); });
+            vf::guarded([&] { std::vector<int8_t> x(n); a.getData(DataType::Int8, x.data(), e, z); }); vf::guarded([&] { std::vector<uint8_t> x(n); a.getData(DataType::UInt8, x.data(), e, z); });
+            vf::guarded([&] { std::vector<int16_t> x(n); a.getData(DataType::Int16, x.data(), e, z); }); vf::guarded([&] { std::vector<uint16_t> x(n); a.getData(DataType::UInt16, x.data(), e, z); });
+            vf::guarded([&] { std::vector<int32_t> x(n); a.getData(DataType::Int32, x.data(), e, z); }); vf::guarded([&] { std::vector<uint32_t> x(n); a.getData(DataType::UInt32, x.data(), e, z); });
+            vf::guarded([&] { std::vector<int64_t> x(n); a.getData(DataType::Int64, x.data(), e, z); }); vf::guarded([&] { std::vector<uint64_t> x(n); a.getData(DataType::UInt64, x.data(), e, z); });
+            vf::guarded([&] { std::unique_ptr<bool[]> x(new bool[n + 1]); a.getData(DataType::Bool, x.get(), e, z); }); vf::guarded([&] { std::vector<std::string> x(n, "a string that is long enough to live on the heap"); a.getData(DataType::String, x.data(), e, z); });
+            vf::guarded([&] { std::vector<float> x; a.getData(x); }); vf::guarded([&] { std::vector<std::string> x; a.getData(x); }); vf::guarded([&] { std::vector<int16_t> x(n); a.getData(x, e, z); }); });
         add("getData(String from any," + an + ")", [=](File &f) { DataArray a = A(f, an.c_str()); NDSize e = a.dataExtent(); std::vector<std::string> x(e.nelms() + 1); a.getData(DataType::String, x.data(), e, NDSize(e.size(), 0)); });
         add("dataExtent(rank+1," + an + ")", [=](File &f) { DataArray a = A(f, an.c_str()); NDSize e = a.dataExtent(); a.dataExtent(NDSize(e.size() + 1, 2)); });
         add("dataExtent(rank-1," + an + ")", [=](File &f) { DataArray a = A(f, an.c_str()); NDSize e = a.dataExtent(); a.dataExtent(e.size() > 1 ? NDSize(e.size() - 1, 2) : NDSize()); });
@@ -212,6 +227,12 @@ static std::vector<Call> misuse() {
     add("Property edge cases", [](File &f) { Section s = f.getSection("meta"); for (auto &p : s.properties()) { vf::guarded([&] { p.values(); }); vf::guarded([&] { p.valueCount(); }); vf::guarded([&] { p.values({}); }); vf::guarded([&] { p.values({Variant()}); }); vf::guarded([&] { p.values(std::vector<Variant>(100, Variant(1.0))); }); vf::guarded([&] { p.values(boost::none); }); vf::guarded([&] { p.values(); }); }
         vf::guarded([&] { s.getProperty(99); }); vf::guarded([&] { s.getProperty(HUGE_N); }); vf::guarded([&] { s.createProperty("v", std::vector<Variant>{}); }); vf::guarded([&] { s.createProperty("v2", DataType::Nothing); }); vf::guarded([&] { s.createProperty("v3", DataType::Opaque); }); vf::guarded([&] { s.inheritedProperties(); }); vf::guarded([&] { s.link(s); s.inheritedProperties(); s.findRelated(); }); });
     add("Variant edge cases", [](File &) { Variant a; vf::guarded([&] { a.get<std::string>(); }); vf::guarded([&] { a.get<double>(); }); Variant b("x"); vf::guarded([&] { b.get<int32_t>(); }); Variant c{std::string()}; c.get<std::string>(); Variant d((const char *)""); Variant e = d; e.swap(a); swap(a, b); (void)(a == b); a.set(nix::none); a.set("", 0); std::ostringstream o; o << a << b << c; });
+    add("NDSize index and swap edge cases", [](File &) { NDSize a({1, 2}), b({7}); const NDSize c({3, 4, 5});
+        vf::guarded([&] { (void)a[(size_t)-1]; }); vf::guarded([&] { (void)c[(size_t)-1]; }); vf::guarded([&] { (void)c[3]; }); vf::guarded([&] { NDSize e; (void)e[0]; }); vf::guarded([&] { NDSize e; (void)e[(size_t)-1]; });
+        vf::guarded([&] { NDSize x({7}), y({1, 2, 3}); x.swap(y); (void)x[2]; (void)y[0]; x.nelms(); y.nelms(); NDSize k(y), l(x); (void)(k == y); vf::guarded([&] { (void)y[2]; }); });
+        vf::guarded([&] { NDSize x, y({1, 2, 3}); x.swap(y); (void)x[2]; y.nelms(); NDSize k(y); vf::guarded([&] { (void)y[0]; }); x.swap(y); (void)y[2]; });
+        vf::guarded([&] { NDSize x({1, 2, 3, 4}); x = NDSize({9}); (void)x[0]; vf::guarded([&] { (void)x[1]; }); NDSize y; y = x; x = NDSize(); (void)y[0]; x.nelms(); });
+        vf::guarded([&] { using std::swap; NDSize x({5, 6}), y({1}); swap(x, y); (void)x[0]; (void)y[1]; std::vector<NDSize> v = {x, y, NDSize()}; std::reverse(v.begin(), v.end()); for (auto &q : v) q.nelms(); }); (void)a; (void)b; });
     add("NDSize / NDArray edge cases", [](File &) { NDSize a({1, 2}), b({1}); vf::guarded([&] { a + b; }); vf::guarded([&] { (void)(a < b); }); vf::guarded([&] { a[5]; }); vf::guarded([&] { NDSize z; z.nelms(); z.dot(a); }); vf::guarded([&] { NDSize h({HUGE_N, HUGE_N}); h.nelms(); }); vf::guarded([&] { a / NDSize({0, 0}); });
         vf::guarded([&] { NDArray x(DataType::Double, NDSize({2, 2})); x.get<double>(99); }); vf::guarded([&] { NDArray x(DataType::Double, NDSize({2, 2})); x.get<double>(NDSize({5, 5})); }); vf::guarded([&] { NDArray x(DataType::Double, NDSize()); x.data(); }); vf::guarded([&] { NDArray x(DataType::Nothing, NDSize({2})); }); });
     add("default-constructed handles", [](File &) { vf::guarded([] { Block().name(); }); vf::guarded([] { DataArray().dataExtent(); }); vf::guarded([] { DataArray a; std::vector<double> v; a.getData(v); }); vf::guarded([] { Tag().taggedData(0); }); vf::guarded([] { MultiTag().positions(); }); vf::guarded([] { Section().properties(); });
